@@ -48,7 +48,16 @@ def shapes():
     nested_unlisted = {"name": "WNu", "abstract": [["A", None, "ABC"], ["B", "A", "decorator"]],
                        "prods": [["L", "A", None, [["v", G.IR01]]], ["M", "B", None, [["v", G.IR22]]], ["N", "B", None, [["a", G.ref("A")]]]],
                        "start": "A", "considered": ["L", "M", "N"]}
-    return [two, three, nested, nested_start, concrete_start, nested_unlisted]
+    # a field typed as a Union of productions: the weight-aware chooser decides between the members as well
+    union_field = {"name": "WU", "abstract": [["A", None, "ABC"]],
+                   "prods": [["L", "A", None, [["v", G.IR01]]], ["K", "A", None, [["v", G.IR22]]],
+                             ["P", "A", None, [["u", ["union", G.ref("L"), G.ref("K")]]]]], "start": "A"}
+    # ... and the same with the union-holding production as (concrete) start symbol, so that the chooser cannot avoid it
+    union_start = {"name": "WUs", "abstract": [["A", None, "ABC"]],
+                   "prods": [["L", "A", None, [["v", G.IR01]]], ["K", "A", None, [["v", G.IR22]]],
+                             ["P", "A", None, [["u", ["union", G.ref("L"), G.ref("K")]], ["a", G.ref("A")]]]],
+                   "start": "P", "considered": ["A", "L", "K"]}
+    return [two, three, nested, nested_start, concrete_start, nested_unlisted, union_field, union_start]
 
 
 def assignments(spec, tier):
